@@ -116,10 +116,14 @@ package contractcourt
 //@   site call handleKnownRemoteState: assert arg(1) == commitSpend && arg(2) == ret(extractStateNumHint)
 //@
 //@ func (c *chainWatcher) handleKnownRemoteState
-//@   props C04
+//@   props C04 C12
 //@   requires c.cfg.chanState != nil && commitSpend != nil
 //@   requires commitSpend.SpendingTx != nil ==> forallq(k, 0, len(commitSpend.SpendingTx.TxOut), commitSpend.SpendingTx.TxOut[k] != nil)
 //@   site call handlePossibleBreach: assert arg(1) == commitSpend && arg(2) == broadcastStateNum
+//@   site call dispatchRemoteForceClose nth 0: assert arg(1) == commitSpend && arg(3).ConfCommitKey.isSome && arg(3).ConfCommitKey.some == RemoteHtlcSet &&
+//@        arg(4) == c.cfg.chanState.RemoteCurrentRevocation
+//@   site call dispatchRemoteForceClose nth 1: assert arg(1) == commitSpend && arg(3).ConfCommitKey.isSome && arg(3).ConfCommitKey.some == RemotePendingHtlcSet &&
+//@        arg(4) == c.cfg.chanState.RemoteNextRevocation && chainSet.remotePendingCommit != nil
 //@
 //@ func (c *chainWatcher) handlePossibleBreach
 //@   props C04
@@ -269,3 +273,40 @@ package contractcourt
 //@   site call NotifyFinalHtlcEvent: assert ret(PutFinalHtlcOutcome) == nil && arg(1).HtlcID == htlc.HtlcIndex && arg(1).ChanID == c.cfg.ShortChanID &&
 //@        !arg(2).Settled && !arg(2).Offchain
 //@   loop 0 step called(NotifyFinalHtlcEvent)
+//@
+//@ func (c *ChannelArbitrator) isPreimageAvailable
+//@   props C12
+//@   site call LookupPreimage: assert arg(1) == hash
+//@   site call LookupInvoice: assert arg(2) == hash && !retn(LookupPreimage, 1)
+//@   site call Is nth 0: assert arg(0) == retn(LookupInvoice, 1) && arg(1) == invoices.ErrInvoiceNotFound
+//@   site call Is nth 1: assert arg(0) == retn(LookupInvoice, 1) && arg(1) == invoices.ErrNoInvoicesCreated
+//@   ensures retn(LookupPreimage, 1) ==> result0 && result1 == nil
+//@   ensures result1 != nil ==> !result0 && result1 == retn(LookupInvoice, 1) && !ret(Is, 0) && !ret(Is, 1)
+//@
+//@ // ---- C04: watcher and commitment builder derive the state-hint obfuscator from the same ordered key pair
+//@ // ---- (initiator's payment base point first)
+//@ func newChainWatcher
+//@   props C04
+//@   loop * havoc
+//@   site call DeriveStateHintObfuscator nth 0: assert cfg.chanState.IsInitiator &&
+//@        arg(0) == cfg.chanState.LocalChanCfg.PaymentBasePoint.PubKey && arg(1) == cfg.chanState.RemoteChanCfg.PaymentBasePoint.PubKey
+//@   site call DeriveStateHintObfuscator nth 1: assert !cfg.chanState.IsInitiator &&
+//@        arg(0) == cfg.chanState.RemoteChanCfg.PaymentBasePoint.PubKey && arg(1) == cfg.chanState.LocalChanCfg.PaymentBasePoint.PubKey
+//@   site store chainWatcher.stateHintObfuscator: assert value == ret(DeriveStateHintObfuscator, 0) || value == ret(DeriveStateHintObfuscator, 1)
+//@
+//@ // ---- C04: what the retribution store persists for taproot outputs is what applyTaprootRetInfo puts back
+//@ func taprootBriefcaseFromRetInfo
+//@   props C04
+//@   loop * havoc
+//@   site mapupdate BreachedHtlcTweaks: assert arg(key) == ret(newResolverID) && arg(val) == firstLevelTweak
+//@   site mapupdate BreachedSecondLevelHltcTweaks: assert arg(key) == ret(newResolverID) && arg(val) == bo.secondLevelTapTweak
+//@   site call newResolverID: assert arg(0) == ret(OutPoint)
+//@   site store ctrlBlocks.CommitSweepCtrlBlock: assert value == bo.signDesc.ControlBlock
+//@   site store ctrlBlocks.RevokeSweepCtrlBlock: assert value == bo.signDesc.ControlBlock
+//@
+//@ func applyTaprootRetInfo
+//@   props C04
+//@   loop * havoc
+//@   site lookup BreachedHtlcTweaks: assert arg(key) == ret(newResolverID)
+//@   site lookup BreachedSecondLevelHltcTweaks: assert arg(key) == ret(newResolverID)
+//@   site call newResolverID: assert arg(0) == ret(OutPoint)
